@@ -196,7 +196,8 @@ def check_precision(ck, rule, fn, outcomes, min_digits=21):
     return n_paths, n_ops
 
 
-def check_float_division(ck, rule, fn, small_names=None):
+def check_float_division(ck, rule, fn, small_names=None, mpf_params=(), nonraw_params=(),
+                         calls_out=None):
     """Precision discipline for `/`: a true division is evaluated either in mpmath (one operand
     derives from an mpmath call) or between *raw* 32-bit quantities - parameters (possibly through
     int()/float()/abs()/unary minus) and literals - where a double is exact enough.  A quotient
@@ -207,7 +208,7 @@ def check_float_division(ck, rule, fn, small_names=None):
     assignment gives it an mpf expression; an expression is mpf if it calls mpmath.* or combines
     an mpf operand arithmetically."""
     import ast
-    small = set(fn.params) | set(small_names or ())
+    small = (set(fn.params) - set(nonraw_params)) | set(small_names or ())
     mod = fn.module
 
     def is_mp_call(node):
@@ -221,7 +222,7 @@ def check_float_division(ck, rule, fn, small_names=None):
                     return True
         return False
 
-    mpf_names = set()
+    mpf_names = set(mpf_params)
 
     def is_mpf(node):
         if is_mp_call(node):
@@ -265,6 +266,27 @@ def check_float_division(ck, rule, fn, small_names=None):
             return is_raw(node.args[0])
         return False
 
+    if calls_out is not None:
+        # what this function hands to the package functions it calls: per callee parameter,
+        # "an mpmath value" / "not a raw input" (for check_float_division_closure)
+        for node in ast.walk(fn.node):
+            if isinstance(node, ast.Call) and isinstance(node.func, ast.Name) and \
+                    node.func.id in mod.functions:
+                callee = mod.functions[node.func.id]
+                info = calls_out.setdefault(callee.qualname, (set(), set()))
+                params = list(callee.params)
+                for k, a in enumerate(node.args):
+                    if k < len(params):
+                        if is_mpf(a):
+                            info[0].add(params[k])
+                        if not is_raw_probe(a, small):
+                            info[1].add(params[k])
+                for kw in node.keywords:
+                    if kw.arg in params:
+                        if is_mpf(kw.value):
+                            info[0].add(kw.arg)
+                        if not is_raw_probe(kw.value, small):
+                            info[1].add(kw.arg)
     n = 0
     for node in ast.walk(fn.node):
         div = None
@@ -284,6 +306,66 @@ def check_float_division(ck, rule, fn, small_names=None):
               'operands as the neighbouring formulas do)' % (fn.qualname, ast.unparse(node)[:80],
                                                              node.lineno),
               fn.loc(node), key='%s::float-division' % fn.qualname)
+    # an mpmath value handed to the math module (or to float()) goes through a 53-bit double:
+    # math.floor(mpf) is not mpmath.floor(mpf) once the value needs more than 53 bits
+    for node in ast.walk(fn.node):
+        if not (isinstance(node, ast.Call) and node.args):
+            continue
+        f = node.func
+        via = None
+        if isinstance(f, ast.Attribute) and isinstance(f.value, ast.Name) and \
+                mod.imports.get(f.value.id, '') in ('ext:math', 'ext:numpy') :
+            via = '%s.%s' % (f.value.id, f.attr)
+        elif isinstance(f, ast.Name) and f.id == 'float':
+            via = 'float'
+        elif isinstance(f, ast.Name) and mod.imports.get(f.id, '').startswith('ext:math.'):
+            via = f.id
+        if via is None or not any(is_mpf(a) for a in node.args):
+            continue
+        n += 1
+        ck.ob(rule, '%s::double@%s' % (fn.name, ast.unparse(node)[:50]), False,
+              '%s: `%s` (line %d) hands an mpmath value to %s, which converts it to a 53-bit '
+              'double first; beyond 2^53 the result is rounded before the floor/ceil/compare '
+              'that follows (the mpmath function of the same name keeps the configured precision)'
+              % (fn.qualname, ast.unparse(node)[:80], node.lineno, via),
+              fn.loc(node), key='%s::float-division' % fn.qualname)
+    return n
+
+
+def is_raw_probe(node, small):
+    import ast
+    if isinstance(node, ast.Constant) and isinstance(node.value, (int, float)):
+        return True
+    if isinstance(node, ast.Name):
+        return node.id in small
+    if isinstance(node, ast.UnaryOp) and isinstance(node.op, (ast.USub, ast.UAdd)):
+        return is_raw_probe(node.operand, small)
+    if isinstance(node, ast.Call) and isinstance(node.func, ast.Name) and \
+            node.func.id in ('int', 'float', 'abs') and len(node.args) == 1:
+        return is_raw_probe(node.args[0], small)
+    return False
+
+
+def check_float_division_closure(ck, rule, prog, fn):
+    """check_float_division on fn and on every package function it reaches through resolved
+    calls (a closed form moved into a shared helper is still the closed form)."""
+    from .. import purity
+    calls = {}
+    n = check_float_division(ck, rule, fn, calls_out=calls)
+    todo = [c for c in purity.closure(prog, [fn.qualname])
+            if c is not fn and c.module.name == fn.module.name]
+    done = set()
+    for _round in range(3):            # helpers of helpers: parameters classified by their callers
+        for callee in todo:
+            if callee.qualname in done or callee.qualname not in calls:
+                continue
+            done.add(callee.qualname)
+            mpf_p, nonraw_p = calls[callee.qualname]
+            check_float_division(ck, rule, callee, mpf_params=mpf_p, nonraw_params=nonraw_p,
+                                 calls_out=calls)
+    for callee in todo:
+        if callee.qualname not in done:
+            check_float_division(ck, rule, callee)
     return n
 
 
